@@ -12,6 +12,7 @@ import (
 	"regexp"
 	"sort"
 	"strconv"
+	"strings"
 	"sync"
 	"time"
 )
@@ -154,12 +155,24 @@ func (r *Reporter) Finish() int {
 		}
 		return a.Key < b.Key
 	})
+	if p := os.Getenv("VERIF_DUMP_VIOLATIONS"); p != "" {
+		var lines []string
+		for _, v := range r.violations {
+			lines = append(lines, v.Symptom+"\t"+v.Key)
+		}
+		os.WriteFile(p, []byte(strings.Join(lines, "\n")+"\n"), 0o644)
+	}
 	os.MkdirAll(filepath.Join(VerifDir, "replay"), 0o755)
 	shown := 0
+	perSym := map[string]int{}
 	for _, v := range r.violations {
-		if shown >= 20 {
+		if shown >= 24 {
 			break
 		}
+		if perSym[v.Symptom] >= 4 {
+			continue
+		}
+		perSym[v.Symptom]++
 		shown++
 		h := sha1.Sum([]byte(v.Symptom + "\x00" + v.Key))
 		p := filepath.Join(VerifDir, "replay", fmt.Sprintf("%s-%s.json", r.Prop, hex.EncodeToString(h[:6])))
